@@ -81,7 +81,10 @@ def main(ctx):
             for part in range(8):
                 jobs.append({"kind": "seq", "ctx": c, "part": part, "parts": 8, "tier": tier,
                              "maxlen": 3})
-            if tier == "quick" and (ei == 2 or (ei == 1 and c["compress"]) or
+            # (the pure-Python masker / validator of environment 2 differ from the native ones exactly
+            # in how they carry state across reads: the split job runs there, too)
+            if tier == "quick" and ((ei == 2 and (c["compress"] or c["failByDrop"])) or
+                                    (ei == 1 and c["compress"]) or
                                     (ei == 0 and c["compress"] and c["failByDrop"])):
                 continue
             for part in range(4):
